@@ -213,7 +213,7 @@ Print Assumptions C12_gen_validateKeys_accepts.
 Theorem C12_gen_checkExpiry_spec : forall now next,
   gen_crl_checkExpiry now next
   = if time_is_zero next then Some (Err "errors" "crl bundle retrieved from file cache does not contain valid NextUpdate" [])
-    else if (now >? next)%Z then Some (Err "errors" "cache miss" [])
+    else if (now >? next)%Z then crl_ErrCacheMiss   (* the sentinel of notation-core-go: a cache miss *)
     else None.
 Proof. exact gen_checkExpiry_spec. Qed.
 Print Assumptions C12_gen_checkExpiry_spec.
@@ -229,3 +229,10 @@ Theorem C12_gen_getVerificationPlugin_spec : forall (C : Type) extract si,
   end.
 Proof. exact gen_getVerificationPlugin_spec. Qed.
 Print Assumptions C12_gen_getVerificationPlugin_spec.
+
+(* the sentinel is an error, and not the one of a missing NextUpdate: the three outcomes of checkExpiry differ *)
+Theorem C12_gen_ErrCacheMiss_is_error :
+  crl_ErrCacheMiss <> None
+  /\ crl_ErrCacheMiss <> Some (Err "errors" "crl bundle retrieved from file cache does not contain valid NextUpdate" []).
+Proof. split; discriminate. Qed.
+Print Assumptions C12_gen_ErrCacheMiss_is_error.
